@@ -347,6 +347,96 @@ func bucket(n int) int {
 	return b
 }
 
+// c08EarlyBlock: a sync block taken before Start() has brought the listener up holds registrations just
+// like any other: the plugin that connects meanwhile is synchronized only after the block is released, and
+// learns of the container created under the block exactly once.
+func c08EarlyBlock(dir string, res *ev.Result, tag string) {
+	what := map[string]any{"scenario": "sync block taken before Start"}
+	mkdirAll(dir)
+	rt, err := rig.NewRuntime(dir)
+	if err != nil {
+		res.Note("runtime: %v", err)
+		return
+	}
+	res.Eval()
+	var mu sync.Mutex
+	var store []*api.Container
+	held, started := true, false // Start() itself synchronizes its (here: no) pre-installed plugins once
+	syncWhileHeld := 0
+	rt.SyncFn = func(ctx context.Context, cb adaptation.SyncCB) error {
+		mu.Lock()
+		if held && started {
+			syncWhileHeld++
+		}
+		snap := append([]*api.Container(nil), store...)
+		mu.Unlock()
+		_, err := cb(ctx, nil, snap)
+		return err
+	}
+	b := rt.A.BlockPluginSync() // before Start
+	if err := rt.Start(); err != nil {
+		res.Note("start: %v", err)
+		return
+	}
+	defer rt.Stop()
+	mu.Lock()
+	started = true
+	mu.Unlock()
+	snapshot, created := map[string]int{}, map[string]int{}
+	p := rig.NewPlugin("early", "10", 0, rig.Handlers{
+		Synchronize: func(_ context.Context, _ []*api.PodSandbox, cs []*api.Container) ([]*api.ContainerUpdate, error) {
+			mu.Lock()
+			for _, c := range cs {
+				snapshot[c.Id]++
+			}
+			mu.Unlock()
+			return nil, nil
+		},
+		Create: func(_ context.Context, _ *api.PodSandbox, c *api.Container) (*api.ContainerAdjustment, []*api.ContainerUpdate, error) {
+			mu.Lock()
+			created[c.Id]++
+			mu.Unlock()
+			return nil, nil, nil
+		},
+	})
+	cerr := make(chan error, 1)
+	go func() { cerr <- p.Connect(rt.Sock) }()
+	defer p.StopStub()
+	time.Sleep(150 * time.Millisecond) // the registration is pending now (or long done, if the block does not hold it)
+	id := tag + "-under-early-block"
+	ctr := &api.Container{Id: id, PodSandboxId: "p", Name: id}
+	mu.Lock()
+	store = append(store, ctr)
+	mu.Unlock()
+	_, err = rt.A.CreateContainer(context.Background(), &api.CreateContainerRequest{Pod: &api.PodSandbox{Id: "p"}, Container: ctr})
+	mu.Lock()
+	held = false
+	mu.Unlock()
+	b.Unblock()
+	if err != nil {
+		res.Violate("C08/create-error", fmt.Sprintf("creation under a sync block taken before Start failed: %v", err), what)
+	}
+	if e := <-cerr; e != nil {
+		res.Note("%s: plugin did not get started: %v", tag, e)
+		res.Inconcl()
+		return
+	}
+	if rig.Await(p.SyncedCh(), 5*time.Second, 60*time.Second) == "hang" {
+		res.Violate("C08/registration-stuck", "the plugin was not synchronized after the early sync block was released; goroutines:\n"+nriStacks(), what)
+		return
+	}
+	rt.A.BlockPluginSync().Unblock()
+	mu.Lock()
+	defer mu.Unlock()
+	if syncWhileHeld > 0 {
+		res.Violate("C08/sync-while-block-held", "the synchronisation callback ran while a plugin-sync block taken before Start was held", what)
+	}
+	if n := snapshot[id] + created[id]; n != 1 {
+		res.Violate(map[bool]string{true: "C08/neither", false: "C08/both"}[n == 0], fmt.Sprintf("the plugin learned of container %s %d times (snapshot %d, creation requests %d)", id, n, snapshot[id], created[id]), what)
+	}
+	res.Seen("early-block")
+}
+
 func runC08(c *ev.ChildEnv, res *ev.Result) {
 	rig.QuietLogs()
 	adaptation.SetPluginRequestTimeout(60 * time.Second)
@@ -366,6 +456,8 @@ func runC08(c *ev.ChildEnv, res *ev.Result) {
 		hmu.Unlock()
 		time.Sleep(d)
 	})
+	c.WAL("early block")
+	c08EarlyBlock(c.Dir+"/early", res, fmt.Sprintf("c08e%d", c.Batch))
 	rounds := tierN(c.Tier, 40, 600) / c.Batches
 	for i := 0; i < rounds; i++ {
 		tag := fmt.Sprintf("c08b%dr%d", c.Batch, i)
